@@ -88,17 +88,35 @@ def _units(prop_est, name):
         rep_f, nonrep_f, third_f = res
         rep, nonrep, reasons = spec_sets(w, p, prop_est)
         facts = z3.And(*w.root.facts())
-        h.ensures("iff.reporting", z3.Implies(facts, rep_f.axis.present() == rep))
-        h.ensures("iff.nonreporting", z3.Implies(facts, nonrep_f.axis.present() == nonrep))
         third_spec = z3.Or(*[r for _, r in reasons])
-        h.ensures("iff.third", z3.Implies(facts, third_f.axis.present() == third_spec))
+        u_ = w.root.u
+        cand_ = z3.And(w.inData(u_), w.cols["percent_expected_vote"] >= p["thr"].t)
+        blk_ = z3.Or(p["ublk"].mem()(w.cols["geographic_unit_fips"]), p["pblk"].mem()(w.cols["postal_code"]))
+
+        def rp(ev):
+            """the generic unit of the counter-model as a real one-unit election (plus fillers), expected placement
+            computed from the statement's rules evaluated in the model"""
+            many = ev(frames.count_of(w.root, z3.And(cand_, z3.Not(blk_)))) > 20
+            unit_ = {"inData": ev(w.inData(u_)), "inFeed": ev(w.inFeed(u_)) or not ev(w.inData(u_)), "pev": float(ev(w.cols["percent_expected_vote"])), "bw": float(ev(w.cols["baseline_weights"])), "tf": float(ev(w.cols["turnout_factor"]))}
+            exp_where = [k for k, t_ in (("reporting", rep), ("nonreporting", nonrep), ("third", third_spec)) if ev(t_)]
+            cat = None
+            for key, cond in reasons:
+                if ev(cond):
+                    cat = CATS[key]
+                    break
+            exp_cat = ["expected"] if exp_where and exp_where[0] != "third" else ([cat] if cat else [])
+            return {"target": "verif_replays:get_units_direct", "args": [unit_, float(ev(p["thr"].t)), float(ev(p["lo"].t)), float(ev(p["hi"].t)), bool(ev(p["ublk"].mem()(w.cols["geographic_unit_fips"]))), bool(ev(p["pblk"].mem()(w.cols["postal_code"]))), bool(ev(p["flagT"](u_))), bool(ev(p["flagM"](u_))), bool(ev(p["fit_t"].t)), bool(ev(p["fit_m"].t)), bool(many)], "kwargs": {"estimands": list(prop_est)}, "check": f"result['exc'] is None and result['where'] == {exp_where!r} and result['category'] == {exp_cat!r}"}
+
+        h.ensures("iff.reporting", z3.Implies(facts, rep_f.axis.present() == rep), replay=rp)
+        h.ensures("iff.nonreporting", z3.Implies(facts, nonrep_f.axis.present() == nonrep), replay=rp)
+        h.ensures("iff.third", z3.Implies(facts, third_f.axis.present() == third_spec), replay=rp)
         h.ensures("third.exactly_once", z3.Implies(facts, third_f.axis.multiplicity() <= 1))
         # category = first applicable reason, for the generic row (u, seg) of the third frame
         cat = third_f.col("unit_category")
         want = z3.StringVal("?")
         for key, cond in reversed(reasons):
             want = z3.If(cond, z3.StringVal(CATS[key]), want)
-        h.ensures("category.first_reason", z3.Implies(z3.And(*third_f.axis.facts()), cat.t == want))
+        h.ensures("category.first_reason", z3.Implies(z3.And(*third_f.axis.facts()), cat.t == want), replay=rp)
         h.ensures("category.expected_in_model_frames", z3.And(z3.Implies(z3.And(*rep_f.axis.facts()), rep_f.col("unit_category").t == z3.StringVal("expected")), z3.Implies(z3.And(*nonrep_f.axis.facts()), nonrep_f.col("unit_category").t == z3.StringVal("expected"))))
         h.ensures("reporting_flag", z3.And(rep_f.col("reporting").t == 1, nonrep_f.col("reporting").t == 0, third_f.col("reporting").t == 0))
         for e in prop_est:
